@@ -53,6 +53,19 @@ def writer_layout(ctx, cfg, fn, buf_name='bytes'):
                     if len(ws) == 1 and ws[0] is not None:
                         width = tfmt(ws[0])
             out.append((fields, width, 'each'))
+        elif cal in ('std::iter::Extend::extend', 'std::vec::Vec::<T, A>::extend') and len(t['args']) == 2 and t['args'][1]['k'] in ('copy', 'move'):
+            # buf.extend(coll.iter().flat_map(|x| x.to_bytes())): one fixed-size encoding per element
+            width = '?'
+            oc = zf._origin_call(t['args'][1]['pl']['l']) if not t['args'][1]['pl'].get('p') else None
+            if oc and (oc[1].get('callee') or '') == 'std::iter::Iterator::flat_map' and len(oc[1]['args']) == 2 and oc[1]['args'][1]['k'] in ('copy', 'move'):
+                ci = fd._closure_info(oc[1]['args'][1]['pl']['l'])
+                if ci and ci[0] in prog.bodies:
+                    n = parse_array_len(prog.bodies[ci[0]].local_ty(0))
+                    if n is not None:
+                        width = n
+            out.append((fields, width, 'each' if width != '?' else 'extend'))
+        elif cal in ('std::vec::Vec::<T, A>::reserve', 'std::vec::Vec::<T, A>::reserve_exact'):
+            continue
         else:
             out.append((fields, '?', cal.split('::')[-1]))
     return out
@@ -151,7 +164,12 @@ def rule_reader_writer(ctx, cfg='prod-all'):
     rl = reader_layout(ctx, cfg, fn, 'BBSplusPoKSignature')
     exp = {'Abar': ('0', '48'), 'Bbar': ('48', '96'), 'D': ('96', '144'), 'e_cap': ('144', '176'), 'r1_cap': ('176', '208'), 'r3_cap': ('208', '240')}
     got = {k: v for k, v in (rl or {}).items() if k in exp}
-    yield Ob('RF-N', '%s#reader-offsets' % fn, (got == exp) if rl is not None else None, 'the reader takes each fixed field from the offset at which the writer puts it', fn, fact=got, expected=exp)
+    # a field whose source slice cannot be traced (filled through a loop over chunks, a closure ...) makes the comparison undecided,
+    # not wrong; only a traced range that differs from the writer's is a violation
+    verdict = None if (rl is None or any(got.get(k) is None for k in exp)) else (got == exp)
+    if rl is not None and any(got.get(k) is not None and got[k] != exp[k] for k in exp):
+        verdict = False
+    yield Ob('RF-N', '%s#reader-offsets' % fn, verdict, 'the reader takes each fixed field from the offset at which the writer puts it', fn, fact=got, expected=exp)
     wl = writer_layout(ctx, cfg, 'bbsplus::proof::BBSplusPoKSignature::to_bytes')
     off = 0
     wmap = {}
